@@ -167,3 +167,98 @@ def observed_steps(case, impl_case):
             if prev == "T":
                 out.append(k)
     return out
+
+
+# ---------------------------------------------------------------- C07
+def c07_trade_booking(case, impl_case, comm_fee):
+    """per direct trade on a security: the parent's capital moves by -(outlay + fee), its fee accumulator by the
+    commission evaluated at (q, p x multiplier) (custom price: at that price), flows are untouched"""
+    fails = []
+    mults = mults_of_case(case)
+    for k in range(1, len(impl_case["steps"])):
+        st = impl_case["steps"][k]
+        if st["status"][1] != "ok":
+            continue
+        op = case["ops"][k - 1]
+        if op[0] != "transact" or op[3] is not None or not op[1]:
+            continue
+        path = "r" + "".join(".%d" % i for i in op[1])
+        ppath = "r" + "".join(".%d" % i for i in op[1][:-1])
+        before, after = impl_case["steps"][k - 1]["state"], st["state"]
+        if path + " scal" not in before or path + " scal" not in after or after.get(path + " kind", ["?"])[0] != "S":
+            continue
+        b = [tok_val(t) for t in before[path + " scal"]]
+        a = [tok_val(t) for t in after[path + " scal"]]
+        pb_, pa_ = [tok_val(t) for t in before[ppath + " scal"]], [tok_val(t) for t in after[ppath + " scal"]]
+        q = a[0] - b[0]
+        if q == 0 or isinstance(a[2], str):
+            continue
+        # the security may have been brought up to date first (price of the parent's date)
+        price, m = a[2], mults.get(strip_paper(path), 1.0)
+        bo = a[8] if not isinstance(a[8], str) else 0.0
+        if op[5] is None:
+            spread = abs(q) * 0.5 * bo * m
+            fee = comm_fee(case["comm"], q, price * m)
+        else:
+            cp = float.fromhex(op[5])
+            spread = q * (cp - price) * m
+            fee = comm_fee(case["comm"], q, cp * m)
+        outlay = q * price * m + spread
+        dcap = pa_[0] - pb_[0]
+        dfee = pa_[9] - pb_[9]
+        dflow = pa_[5] - pb_[5]
+        # a date change inside the op (stale security) resets nothing on the parent: compare directly
+        if not near(dcap, -(outlay + fee), outlay):
+            fails.append("%s: trade q=%r moved parent cash by %r, expected %r" % (path, q, dcap, -(outlay + fee)))
+        if not near(dfee, fee, fee):
+            fails.append("%s: trade q=%r booked fee %r, expected %r" % (path, q, dfee, fee))
+        if not near(dflow, 0.0):
+            fails.append("%s: trade changed the parent's net flows by %r" % (path, dflow))
+        tot_b = b[7] + sum(tok_val(t) for t in before[path + " h_outlays"])
+        tot_a = a[7] + sum(tok_val(t) for t in after[path + " h_outlays"])
+        if not near(tot_a - tot_b, outlay, max(abs(tot_a), abs(outlay))):
+            fails.append("%s: recorded outlay moved by %r, expected %r" % (path, tot_a - tot_b, outlay))
+    return fails
+
+
+def c07_ledger(case, impl_case):
+    """backtests (no explicit non-flow adjustments): per strategy node and date,
+    cash_t - cash_{t-1} = flows_t - sum(own securities' outlays_t) - fees_t - sum(sub-strategies' flows_t)
+                          + sum(own securities' (coupon - holding cost)_{t-1})"""
+    fails = []
+    state = impl_case["steps"][-1]["state"]
+    root, nodes, _ = build_tree(state)
+    if root is None:
+        return fails
+    specs = spec_index(case["tree"])
+
+    def has_flow_algo(a):
+        if a[0] == "capitalflow":
+            return True
+        return any(has_flow_algo(x) for x in a[1:] if isinstance(x, list) and x and isinstance(x[0], str)) or \
+            any(has_flow_algo(y) for x in a[1:] if isinstance(x, list) for y in x if isinstance(y, list) and y and isinstance(y[0], str))
+    for n in walk(root):
+        if n.kind != "G":
+            continue
+        # a sub-strategy with its own CapitalFlow receives outside money: its flows are not all passed down by n
+        skip = False
+        for k in n.kids:
+            sp = specs.get(strip_paper(k.path))
+            if k.kind == "G" and sp is not None and len(sp) > 4 and any(has_flow_algo(a) for a in sp[4]):
+                skip = True
+        if skip:
+            continue
+        cash, flows, fees = n.vals("hg_cash"), n.vals("hg_flows"), n.vals("hg_fees")
+        for t in range(1, len(cash)):
+            want = flows[t] - fees[t]
+            for k in n.kids:
+                if k.kind == "S":
+                    want -= k.vals("h_outlays")[t]
+                    if "h_coupons" in k.f:
+                        want += k.vals("h_coupons")[t - 1] - k.vals("h_hcosts")[t - 1]
+                else:
+                    want -= k.vals("hg_flows")[t]
+            got = cash[t] - cash[t - 1]
+            if not near(got, want, max(abs(cash[t]), abs(cash[t - 1]))):
+                fails.append("%s date %d: cash moved by %r, ledger says %r" % (n.path, t, got, want))
+    return fails
